@@ -58,6 +58,8 @@ func runC14(c *Ctx) {
 	ruleAssertSiblings(c, p, "C14.assert-siblings")
 	ruleVersionArgs(c, p, "C14.version")
 	ruleSameExtent(c, p, "C14.same-extent")
+	ruleCutBeforeChain(c, p, "C14.cut-first")
+	ruleSameAtomArgs(c, p, "C14.same-args")
 	for _, cf := range c.Configs() {
 		if pc := c.Prog(cf); pc != nil {
 			ruleEncoderPure(c, pc, "C14.pure")
@@ -709,6 +711,21 @@ func ruleNoCapInEncoders(c *Ctx, p *core.Program, rule string) {
 			bad := false
 			fns := []*ssa.Function{fn}
 			fns = append(fns, fn.AnonFuncs...)
+			// helpers of the same column type the encoder calls on its receiver (c.raw())
+			for _, call := range core.Calls(fn) {
+				if h := core.StaticFn(call); h != nil && h.Blocks != nil && h != fn && h.Signature.Recv() != nil && core.NamedOf(h.Signature.Recv().Type()) != nil &&
+					core.NamedOf(h.Signature.Recv().Type()).Obj() == ct.Obj() && h.Name() != "Rows" {
+					fns = append(fns, h)
+					// inside a generic body the callee is an instantiation wrapper: the declared method is behind it
+					if h.Synthetic != "" {
+						for _, wc := range core.Calls(h) {
+							if g := core.StaticFn(wc); g != nil && g.Blocks != nil && strings.HasPrefix(h.Name(), g.Name()) {
+								fns = append(fns, g)
+							}
+						}
+					}
+				}
+			}
 			for _, f := range fns {
 				for _, call := range core.Calls(f) {
 					bi, ok := call.Common().Value.(*ssa.Builtin)
